@@ -8,6 +8,7 @@ package balmon
 import (
 	"fmt"
 	"os"
+	"path/filepath"
 	"sort"
 	"strings"
 	"time"
@@ -367,9 +368,21 @@ func Child(seed int64, tier, stateFile string, rounds int, testnet bool) {
 				}
 				run.Inc("restarts_with_stale_index_dump")
 			}
-			// the new process: empty index, nothing remembered, configuration applied
+			if !unclean && r.Intn(3) == 0 {
+				// the process died while SaveBalances was writing (the folder already carries its final name), or a
+				// file of the dump is short for another reason: one of the five files is cut at a random length
+				dumps, _ := filepath.Glob(dir + "/bal/*/*")
+				if len(dumps) > 0 {
+					fn := dumps[r.Intn(len(dumps))]
+					if st, er := os.Stat(fn); er == nil && st.Size() > 0 {
+						os.Truncate(fn, int64(r.Intn(int(st.Size()))))
+						run.Inc("restarts_with_a_cut_index_dump_file")
+					}
+				}
+			}
+			// the new process: no index, nothing remembered, configuration applied
 			wallet.Disable()
-			wallet.LAST_SAVED_FNAME = ""
+			wallet.VerifFreshProcess()
 			ck.on = false
 			common.ApplyBalMinVal()
 			minValue = pending
